@@ -13,6 +13,7 @@ import (
 	"encoding/json"
 	"fmt"
 	"reflect"
+	"regexp"
 	"sort"
 	"strings"
 	"time"
@@ -622,6 +623,29 @@ func c07judgeLim(w *report.W, text string, limit time.Duration) c07outcome {
 		if d := docgen.Match(want, ssN(holder.M)); d != "" {
 			return c07outcome{kind: "wrong-content", detail: "via a *MapSS struct field: " + d}
 		}
+		// decoding a second document of the same shape (every scalar value vN replaced by wN) into the same map: every
+		// key - explicit or merged - takes the second document's value
+		text2 := regexp.MustCompile(`\bv(\d+)\b`).ReplaceAllString(text, "w$1")
+		if text2 != text {
+			want2 := want.Clone()
+			for _, v := range want2.Vals {
+				v.S = regexp.MustCompile(`^v(\d+)$`).ReplaceAllString(v.S, "w$1")
+			}
+			var again ordered.MapSS
+			var e3, e4 error
+			if pan := report.Catch(func() {
+				e3 = yaml.Unmarshal([]byte(text), &again)
+				e4 = yaml.Unmarshal([]byte(text2), &again)
+			}); pan != "" {
+				return c07outcome{kind: "panic", detail: "second decode into the same MapSS: " + pan}
+			}
+			if e3 != nil || e4 != nil {
+				return c07outcome{kind: "unexpected-error", detail: fmt.Sprintf("second decode into the same MapSS: %v / %v", e3, e4)}
+			}
+			if d := docgen.Match(want2, ssN(&again)); d != "" {
+				return c07outcome{kind: "wrong-content", detail: "second document decoded into the same *MapSS: " + d + "\n  second document: " + text2}
+			}
+		}
 		if f := feats(); f != "" {
 			return c07outcome{class: "ok+MapSS:" + f}
 		}
@@ -663,6 +687,10 @@ var c07fixed = []string{
 	"a: &a [{<<: {k: *a}}]\n",
 	"a: &a {k: 1}\nb: &b {c: {<<: [*a, *b]}}\n",
 	"a: &a {p: {<<: *b}}\nb: &b {q: {<<: *a}}\n",
+	// all-string documents with merges (also decoded into *MapSS, twice)
+	"k: v1\n<<: {a: v2, c: v3}\nz: v4\n",
+	"<<: [{a: v1, c: v2}, {c: v3, d: v4}]\na: v5\n",
+	"p: v1\n<<: {q: v2}\n<<: {q: v3, r: v4}\n",
 	// a quoted or explicitly tagged "<<" is an ordinary string key, not a merge
 	"a: &a {x: 1}\nm: {\"<<\": *a, y: 2}\n",
 	"a: &a {x: 1, y: 0}\nm: {y: 2, '<<': *a}\nn: {'<<': {k: v}, <<: *a}\n",
@@ -760,8 +788,8 @@ func init() {
 		Rule: "documents are programs of choices over an anchor/alias/merge grammar: 2-4 top-level entries, each a scalar / alias / mapping / sequence, optionally anchored with one of three names " +
 			"(names may be reused, i.e. redefined); mappings have explicit keys a, b with nested nodes, an alias-as-key entry and three merge slots (before, between, after the explicit keys), each merge an alias, " +
 			"a sequence of aliases in either order, a nested sequence, an inline mapping or a mix; aliases may point backwards, forwards (rejected by the YAML parser and skipped) or to enclosing nodes " +
-			"(self / mutual cycles through values, sequences, keys and merges); enumerated with <=4 (quick) / <=5 (thorough) deviations from a default document that already anchors, aliases and merges, plus 32 hand-written shapes (value cycles closing through values, sequences, keys and merges of anchored ancestors; quoted and tagged `<<` keys, which are ordinary keys) and layered merges of 2..80 layers (each layer merging the two before it / the one before it twice), which must decode within 90 s (they take milliseconds). " +
-			"ordered.DecodeYAML, yaml.Unmarshal into *ordered.MapSA and - for documents whose top-level values are all strings - into *ordered.MapSS (stand-alone and as a struct field) are compared with a two-phase reference (pure per-mapping merge resolution, then containment-cycle detection and expansion) on " +
+			"(self / mutual cycles through values, sequences, keys and merges); enumerated with <=4 (quick) / <=5 (thorough) deviations from a default document that already anchors, aliases and merges, plus 35 hand-written shapes (value cycles closing through values, sequences, keys and merges of anchored ancestors; quoted and tagged `<<` keys, which are ordinary keys) and layered merges of 2..80 layers (each layer merging the two before it / the one before it twice), which must decode within 90 s (they take milliseconds). " +
+			"ordered.DecodeYAML, yaml.Unmarshal into *ordered.MapSA and - for documents whose top-level values are all strings - into *ordered.MapSS (stand-alone, as a struct field, and a second document of the same shape with other values into the same map) are compared with a two-phase reference (pure per-mapping merge resolution, then containment-cycle detection and expansion) on " +
 			"yaml.v3's node graph: content and order, independent copies (no shared mapping/sequence objects), value cycle => error, merge cycle tolerated, no panic / fatal crash / hang. " +
 			"Non-trivial = the document contains at least one alias and was compared in full (content, order, independence). Documents whose merge cycle runs through a sequence or several mappings, or that repeat an explicit key, are only checked for no panic / crash / hang.",
 		Assumptions: []string{
